@@ -11,7 +11,10 @@ DEFAULT_NOTE = ("Trusted: the pyvc encoding of Python semantics (floats as reals
                 "not yet derived from an inductive invariant of the event loop.")
 
 NOTES = {
-    "C01": dict(text="Proved: ExitNode.accept appends the customer exactly once, counts it, and may only be called for a customer that is nowhere (ghost loc)."),
+    "C01": dict(text="Proved per transfer function (accept, release, renege, release_blocked_individual, finish_service, ExitNode.accept): a customer is appended to exactly one line only while it is nowhere (ghost location map), removed exactly once before it is handed on, each transfer calls the destination's accept exactly once, and the population counters move with the lists (checkpoints proved at the hand-over call)."),
+    "C03": dict(text="Proved: the service / renege record is written exactly once per departure, before the hand-over, names this node, the destination fixed by finish_service (renege: the jockeying destination, fix D14) and exit_date = now; rerouted customers get no service record."),
+    "C06": dict(text="Proved: release may only be called when the destination has room (or is the exit, or on the documented reroute path) -- an obligation at every call site -- and finish_service / release_blocked_individual test exactly that before calling it; accept records the population seen."),
+    "C11": dict(text="Proved (restart half): an interrupted customer restarted by begin_interrupted_individuals_service gets time_left under 'resume' and its original service time under 'restart', non-negative, starting now on the freed server."),
     "C02": dict(text="Proved for all inputs: the next active node has the minimal next_event_date; the arrival node's next event is the minimal stream date; a node's next event is the earliest candidate (tie order as documented) and end-of-service candidates are unblocked customers with a real end date >= now."),
     "C04": dict(text="Proved: find_free_server returns a non-busy member of the node's servers, or None exactly when all are busy."),
     "C05": dict(text="Proved: find_free_server finds a free server whenever one exists; choose_next_customer returns None exactly when nobody waits."),
@@ -28,9 +31,6 @@ NOTES = {
 }
 
 NOT_APPLICABLE = {
-    "C03": "journey-continuity needs the release / accept / renege contracts (records + destination chain); not under contract yet",
-    "C06": "the admission tests of ArrivalNode.release_individual and Node.finish_service are not under contract yet",
-    "C11": "decide_preempt / preempt are not under contract yet",
     "C15": "two-run relational property; the ownership / frame analysis of Simulation.__init__ it reduces to is not built yet",
     "C19": "PSNode methods are not under contract yet (nonlinear real arithmetic obligations)",
     "C20": "ExactNode / ExactArrivalNode receiver-class runs are not set up yet",
